@@ -179,7 +179,7 @@ var checks = map[string]*Check{
 		LevelText:   "Every case of the C04 step space and the C05 walk space (quick vocabularies) is executed with deep snapshots of state, messages, spec, control and props taken before and after; any difference, any returned state sharing the caller's bindings map, and any difference between two identical calls is a violation.",
 		LevelNote:   "Trusted: the reflect-based snapshot (rt/snap). Generated native actions never write to the map they are given (action misbehaviour is not engine behaviour).",
 		Assumptions: append([]string{"failing behaviours are generated systematically: throwing / bad-return / same-map actions, rejecting and throwing guards, steps ending at the error node, walks hitting the limit or a breakpoint"}, commonAssumptions...)},
-	"C18": {ID: "C18", Parts: []Part{{Harness: "core", Func: "C18"}, {Harness: "corec", Func: "C18c", Race: true}}, GoMaxProcs: 1, Category: "exploration", QuickDeadline: 200, ThoroughDeadline: 900,
+	"C18": {ID: "C18", Parts: []Part{{Harness: "core", Func: "C18"}, {Harness: "corec", Func: "C18c", Race: true}, {Harness: "sio", Func: "C18sio"}}, GoMaxProcs: 1, Category: "exploration", QuickDeadline: 200, ThoroughDeadline: 900,
 		Engine: "E1+E2", DesignRef: "6/C18",
 		Technique:   "bounded-exhaustive enumeration of states with permanent bindings x action/guard programs x node shapes x error routing on the real Spec.Step; plus stateless schedule exploration (with a ThreadSanitizer pass) of machines with different permanent bindings walked concurrently over one compiled spec",
 		LevelText:   "All combinations of a state universe with permanent bindings and an action/guard program list covering every way of returning bindings (and of failing) are executed through Spec.Step with every error-routing setting; whenever a state results every permanent binding must be present and unchanged; no crash. Concurrent part: every interleaving (within the deviation bound) of 2-3 walks of machines with different permanent bindings over one compiled spec whose actions and guards delete and overwrite them; each walk must equal its solo walk.",
